@@ -33,6 +33,7 @@ type keyAgg struct {
 	Count   int
 	H       []int
 	K       int
+	SpaceMs int64
 	DeltaMs int64
 	Msg     string
 	Replay  map[string]any
@@ -43,7 +44,7 @@ func (k *keyAgg) caseID() caseID {
 	for i, x := range k.H {
 		h[i] = sym(x)
 	}
-	return caseID{H: h, K: k.K, Delta: time.Duration(k.DeltaMs) * time.Millisecond}
+	return caseID{H: h, K: k.K, Delta: time.Duration(k.DeltaMs) * time.Millisecond, Spacing: time.Duration(k.SpaceMs) * time.Millisecond}
 }
 
 type workerOut struct {
@@ -74,7 +75,7 @@ func (o *workerOut) found(part string, c caseID, f finding) {
 	}
 	a.Count++
 	if a.Count == 1 || c.less(a.caseID()) {
-		a.H, a.K, a.DeltaMs, a.Msg, a.Replay = c.H.ints(), c.K, c.Delta.Milliseconds(), f.Msg, c.replay(part)
+		a.H, a.K, a.DeltaMs, a.SpaceMs, a.Msg, a.Replay = c.H.ints(), c.K, c.Delta.Milliseconds(), c.Spacing.Milliseconds(), f.Msg, c.replay(part)
 	}
 }
 
@@ -179,32 +180,37 @@ func adapterWorker(tier string, shard, nshards int, deadline time.Time) *workerO
 			}
 			for k := 0; k <= sp.L; k++ {
 				for _, d := range allDeltas {
-					c := caseID{H: h, K: k, Delta: d}
-					r := runAdapterCase(c)
-					o.Cases++
-					o.Execs++
-					o.Steps += r.Steps
-					o.Replayed += r.Replayed
-					o.ByLen[fmt.Sprint(sp.L)]++
-					if r.HarnessErr != "" {
-						o.harnessErr(r.HarnessErr)
-						continue
-					}
-					if r.Nontrivial {
-						o.Nontrivial++
-					}
-					for s := 0; s < 2; s++ {
-						res := "refused"
-						if r.OK[s] {
-							res = "recovered"
+					for _, spc := range allSpacings {
+						if k == 0 && spc != allSpacings[0] {
+							continue // no packet before the disconnect: the spacing changes nothing
 						}
-						o.ByClass[r.Class[s].String()+"/"+res]++
-					}
-					for _, f := range r.Findings {
-						o.found("adapter", c, f)
-					}
-					if len(o.Samples) < 2 && sp.L == 3 && k == 1 && r.Nontrivial && shard == 0 {
-						o.Samples = append(o.Samples, map[string]any{"part": "adapter", "case": c.String(), "session_S": r.Class[0].String(), "recovered_S": r.OK[0], "session_T": r.Class[1].String(), "recovered_T": r.OK[1]})
+						c := caseID{H: h, K: k, Delta: d, Spacing: spc}
+						r := runAdapterCase(c)
+						o.Cases++
+						o.Execs++
+						o.Steps += r.Steps
+						o.Replayed += r.Replayed
+						o.ByLen[fmt.Sprint(sp.L)]++
+						if r.HarnessErr != "" {
+							o.harnessErr(r.HarnessErr)
+							continue
+						}
+						if r.Nontrivial {
+							o.Nontrivial++
+						}
+						for s := 0; s < 2; s++ {
+							res := "refused"
+							if r.OK[s] {
+								res = "recovered"
+							}
+							o.ByClass[r.Class[s].String()+"/"+res]++
+						}
+						for _, f := range r.Findings {
+							o.found("adapter", c, f)
+						}
+						if len(o.Samples) < 2 && sp.L == 3 && k == 1 && r.Nontrivial && shard == 0 {
+							o.Samples = append(o.Samples, map[string]any{"part": "adapter", "case": c.String(), "session_S": r.Class[0].String(), "recovered_S": r.OK[0], "session_T": r.Class[1].String(), "recovered_T": r.OK[1]})
+						}
 					}
 				}
 			}
@@ -281,7 +287,7 @@ func main() {
 		case "adapter":
 			emitResult(adapterWorker(*tier, *shard, *nshards, dl))
 		case "server":
-			emitResult(serverWorker(*tier, dl))
+			emitResult(serverWorker(*tier, *shard, *nshards, dl))
 		case "client":
 			emitResult(clientWorker(*tier, dl))
 		default:
@@ -325,7 +331,13 @@ func main() {
 		}
 	}
 	if want("server") {
-		jobs = append(jobs, job{append([]string{"-worker", "server"}, common...)})
+		ns := 1
+		if *tier == "thorough" {
+			ns = np
+		}
+		for s := 0; s < ns; s++ {
+			jobs = append(jobs, job{append([]string{"-worker", "server", "-shard", fmt.Sprint(s), "-nshards", fmt.Sprint(ns)}, common...)})
+		}
 	}
 	if want("client") {
 		jobs = append(jobs, job{append([]string{"-worker", "client"}, common...)})
@@ -333,12 +345,15 @@ func main() {
 	parts := map[string]*workerOut{}
 	var mu sync.Mutex
 	var wg sync.WaitGroup
+	sem := make(chan struct{}, np+1)
 	for _, j := range jobs {
 		j := j
 		wg.Add(1)
 		go func() {
 			defer wg.Done()
-			out, errs := spawn(j.args, budget+3*time.Minute)
+			sem <- struct{}{}
+			defer func() { <-sem }()
+			out, errs := spawn(j.args, time.Until(deadline)+3*time.Minute)
 			mu.Lock()
 			defer mu.Unlock()
 			if errs != "" {
@@ -424,6 +439,7 @@ func doReplay(path string) {
 			History  []int  `json:"history"`
 			K        int    `json:"k"`
 			DeltaMs  int64  `json:"delta_ms"`
+			SpaceMs  int64  `json:"spacing_ms"`
 			Scenario string `json:"scenario"`
 		} `json:"replay"`
 	}
@@ -435,7 +451,7 @@ func doReplay(path string) {
 	for i, x := range f.Replay.History {
 		h[i] = sym(x)
 	}
-	c := caseID{H: h, K: f.Replay.K, Delta: time.Duration(f.Replay.DeltaMs) * time.Millisecond}
+	c := caseID{H: h, K: f.Replay.K, Delta: time.Duration(f.Replay.DeltaMs) * time.Millisecond, Spacing: time.Duration(f.Replay.SpaceMs) * time.Millisecond}
 	var fs []finding
 	herr := ""
 	switch f.Replay.Part {
